@@ -142,6 +142,17 @@ CHECKS = {
         'must give the results of a pristine process (or of the explicit settings made). Violations are reduced to histories in which every call is essential.',
         'Trusted: the state vector G is only used for reporting; hidden state outside G is caught by the probe battery. Lazily compiled regexes are pre-compiled in the parent.',
     ),
+    'C10': (
+        'model_checking',
+        'explicit-state search over declaration-block operations on the real CSSStyleDeclaration / CSSVariablesDeclaration in lock-step with an ordered-multimap reference model; exhaustive table over all known property names for the DOM-name mapping',
+        'DESIGN.md 3/C10',
+        'BFS over setProperty (every normalize/replace combination, Property objects), removeProperty, item assignment and deletion, attribute access, '
+        'cssText assignment over names differing by case and escapes x values x priorities, from two seeds, to closure under <=3 (quick) / <=4 (thorough) '
+        'entries (26 580 / 414 584 states); after every transition the entry list, every lookup (5 names x normalize), length/item/keys/iteration/in, the '
+        'serialisation (read by an independent mini parser), the return value and "refused operation changes nothing" are compared with the reference. '
+        'Same search for the variables block. All 138 known property names x {get,set,set empty,del} by DOM and CSS name.',
+        'Trusted: mc/model/ref_decl.py, ref_vars.py (written from the statement); leniencies (name order by last entry, Python negative indexes, empty value = removal) are listed in the evidence.',
+    ),
 }
 
 PENDING = {}
